@@ -14,6 +14,8 @@ use crate::types::*;
 #[derive(Clone, Debug, PartialEq, Eq, Hash)]
 pub struct McState { pub len: u16, pub cap: u16, pub spare: Spare, pub bad: Option<u64> }
 
+impl McState { pub fn wide(&self, lmax: usize) -> bool { self.len as usize > lmax } }
+
 #[derive(Clone, Debug)]
 pub struct Violation { pub sig: String, pub detail: String, pub state: String, pub edge: String, pub fault_at: u32 }
 
@@ -125,6 +127,8 @@ impl Model for VecModel {
             }
         }
         if let Some(b) = bad { return Some(McState { len: s.len, cap: s.cap, spare: s.spare, bad: Some(b) }); }
+        // wide states (beyond the length bound) are leaves: every edge from them is executed, successors are not expanded
+        if s.wide(self.lmax) { return None; }
         let (l, c) = out.next?;
         let c = c.min(u16::MAX as usize) as u16;
         let ns = McState { len: l as u16, cap: c, spare: s.spare, bad: None };
@@ -138,6 +142,8 @@ impl Model for VecModel {
     fn within_boundary(&self, s: &McState) -> bool {
         if s.bad.is_some() { return true; }
         let cap_ok = (s.cap as usize) <= self.cmax || self.runner.fixed_cap().is_some();
+        // wide initial states are inside the boundary (so that their edges run); their successors never exist (see next_state)
+        if s.wide(self.lmax) { return self.inits.contains(s); }
         (s.len as usize) <= self.lmax && cap_ok
     }
 }
